@@ -16,10 +16,11 @@ type WriteSet struct {
 	Globals map[string]bool // package-level variables written (pkg.name)
 	GReads  map[string]bool // package-level variables read
 	TopWhy  string
+	Allocs  map[string]bool // named struct types (TypeName) of which the function may allocate objects or arrays
 }
 
 func newWS() *WriteSet {
-	return &WriteSet{Names: map[string]bool{}, Globals: map[string]bool{}, GReads: map[string]bool{}}
+	return &WriteSet{Names: map[string]bool{}, Globals: map[string]bool{}, GReads: map[string]bool{}, Allocs: map[string]bool{}}
 }
 
 func (w *WriteSet) Sorted() []string {
@@ -53,6 +54,12 @@ func (w *WriteSet) add(o *WriteSet) bool {
 	for k := range o.GReads {
 		if !w.GReads[k] {
 			w.GReads[k] = true
+			ch = true
+		}
+	}
+	for k := range o.Allocs {
+		if !w.Allocs[k] {
+			w.Allocs[k] = true
 			ch = true
 		}
 	}
@@ -256,7 +263,38 @@ func (g *Gen) instrWrites(in ssa.Instruction, ws *WriteSet) (callees []*ssa.Func
 	return g.instrWritesIn(in, ws, nil)
 }
 
+// noteAlloc records that an object or array of (named struct) type t may be allocated.
+func (g *Gen) noteAlloc(t types.Type, ws *WriteSet) {
+	for {
+		switch u := t.(type) {
+		case *types.Pointer:
+			t = u.Elem()
+			continue
+		case *types.Slice:
+			t = u.Elem()
+			continue
+		case *types.Array:
+			t = u.Elem()
+			continue
+		}
+		break
+	}
+	if nt, ok := t.(*types.Named); ok && isStruct(nt) {
+		ws.Allocs[g.TE.TypeName(nt)] = true
+	}
+}
+
 func (g *Gen) instrWritesIn(in ssa.Instruction, ws *WriteSet, scope map[*ssa.BasicBlock]bool) (callees []*ssa.Function) {
+	switch a := in.(type) {
+	case *ssa.Alloc:
+		g.noteAlloc(a.Type().Underlying().(*types.Pointer).Elem(), ws)
+	case *ssa.MakeSlice:
+		g.noteAlloc(a.Type(), ws)
+	case ssa.CallInstruction:
+		if bi, ok := a.Common().Value.(*ssa.Builtin); ok && bi.Name() == "append" {
+			g.noteAlloc(a.Common().Args[0].Type().Underlying(), ws)
+		}
+	}
 	switch in := in.(type) {
 	case *ssa.Store:
 		if freshRoot(in.Addr, scope) {
@@ -328,6 +366,7 @@ func (g *Gen) instrWritesIn(in ssa.Instruction, ws *WriteSet, scope map[*ssa.Bas
 					for _, h := range hs {
 						ws.Names[h] = true
 					}
+					ws.Allocs["*"] = true // decoders allocate by reflection: unknown allocation set
 					return
 				}
 			}
